@@ -65,6 +65,8 @@ def run(ctx):
     for o in ("less", "greater", "equivalent", "unordered"):
         if not outcomes[o]:
             raise vflib.InfraError("vacuity: no diagram row with outcome " + o)
+    if sum(1 for x in rows if x.get("family") == "overflow") != 5:
+        raise vflib.InfraError("vacuity: expected the 5 rows of the CompareChunks overflow family (4 reproducers + control)")
     ev = [x for x in rows if x["kind"] == "eval"]
     if not any(x["down"] != x["up"] and negative(x["prod"]) for x in ev):
         raise vflib.InfraError("vacuity: no inexact evaluation row with a negative fee")
@@ -94,10 +96,30 @@ def run(ctx):
     for k in KINDS:
         mine = [x for x in rows if x["kind"] == k]
         ctx.sample(mine[len(mine) // 2], limit=len(KINDS))
-    vflib.report_mismatches(ctx, binary, "table", res, adapter="feefrac", what_prefix="FeeFrac: ",
+    # Rows of the "overflow" family reproduce a known finding (known_findings.jsonl): they get a stable key so that
+    # ctx.violation prints KNOWN-FINDING instead of VIOLATION; once CompareChunks is fixed they simply pass.
+    def family(m):
+        idx = m.get("index")
+        return json.loads(res["lines"][idx]).get("family") if idx is not None and idx < len(res["lines"]) else None
+    known_family = [m for m in res["mismatches"] + res["aborts"] if family(m) == "overflow"]
+    for m in known_family:
+        case = json.loads(res["lines"][m["index"]])
+        key = "chunks-overflow:" + vflib.digest([case["c0"], case["c1"]])
+
+        def confirm(case=case):
+            r2 = ctx.run_harness(binary, "table", [json.dumps(case)], nproc=1, name="confirm")
+            return bool(r2["mismatches"] or r2["aborts"])
+        ctx.violation(key, "FeeFrac: %s on row %s: %s" % (m.get("kind"), vflib.canon(case), m.get("why")),
+                      dict(adapter="feefrac", mode="table", args=[], case=case, mismatch=m), confirm=confirm)
+    rest = dict(res, mismatches=[m for m in res["mismatches"] if family(m) != "overflow"],
+                aborts=[m for m in res["aborts"] if family(m) != "overflow"])
+    ctx.extra["overflow_family_rows"] = sum(1 for x in rows if x.get("family") == "overflow")
+    ctx.extra["overflow_family_mismatches"] = len(known_family)
+    vflib.report_mismatches(ctx, binary, "table", rest, adapter="feefrac", what_prefix="FeeFrac: ",
                             key_fn=lambda m, case: "row:" + vflib.digest(case))
     ctx.assumptions += ["sizes are 1..2^31-1 (0 only in the empty FeeFrac); EvaluateFee/Div rows are restricted to results that fit int64 (the documented precondition)",
-                        "CompareChunks inputs keep cumulative fee differences between the two diagrams inside int64",
+                        "CompareChunks grid inputs keep cumulative fee differences between the two diagrams inside int64; the five rows of the 'overflow' family "
+                        "(fee sums inside int64, cross-diagram differences not) document the known finding chunks-overflow:*",
                         "values between the enumerated boundaries behave like their neighbours"]
     return ctx.finish(level="model_checking", exhaustive=True,
                       rule="one row per operand combination of the small grid and the boundary grid (TLC-enumerated, results computed by the specification's limb "
